@@ -52,9 +52,13 @@ Init ==
     /\ spur = 0
     /\ hist = <<>>
 
+RunnerDue == rpos # "rt_idle" \/ tw
+RunnerSpur == SPURIOUS /\ spur < MaxSpur /\ rpos = "rt_idle" /\ ~tw
+
 Rec(thr, kind, to, t, items, item, fired) ==
     hist' = IF EMIT THEN Append(hist, [thr |-> thr, e |-> kind, to |-> to, tw |-> t, items |-> items,
-                                        item |-> item, fired |-> fired])
+                                        item |-> item, fired |-> fired,
+                                        sp |-> (thr = 0 /\ ~RunnerDue)])   \* sp: spurious poll of the parked runner
             ELSE hist
 
 RECURSIVE SortedSeq(_)
@@ -62,9 +66,6 @@ SortedSeq(S) == IF S = {} THEN <<>>
                 ELSE LET m == CHOOSE x \in S : \A y \in S : x <= y IN <<m>> \o SortedSeq(S \ {m})
 
 Run(to, t) == MRunner(to, t) /\ Rec(0, "run", to, t, <<>>, 0, FALSE)
-
-RunnerDue == rpos # "rt_idle" \/ tw
-RunnerSpur == SPURIOUS /\ spur < MaxSpur /\ rpos = "rt_idle" /\ ~tw
 
 Runner ==
     /\ RunnerDue \/ RunnerSpur
